@@ -1807,9 +1807,13 @@ class Store:
 
         state = {}
 
-        if self.leaf or schema == '**':
+        if isinstance(schema, dict) and schema.get('_output'):
+            # an output-only port is not read, whether it holds
+            # variables or is a variable itself
+            pass
+        elif self.leaf or schema == '**':
             state = self
-        elif not schema.get('_output'):
+        else:
             for key, subschema in schema.items():
                 path = topology.get(key)
                 if key == '*':
